@@ -41,6 +41,19 @@ def counter_place(body, op):
         d = body.single_def(l)
         if d and d[2] == "assign" and d[3]["rv"]["k"] == "use" and d[3]["rv"]["op"]["k"] in ("copy", "move"):
             return counter_place(body, d[3]["rv"]["op"])
+        # `let depth = depth + 1;` (a shadowing local instead of `depth += 1`): the local *is* the stepped counter
+        if d and d[2] == "assign" and d[3]["rv"]["k"] in ("bin", "checked_bin") and str(d[3]["rv"].get("op", "")).startswith(("Add", "Sub")) \
+                and d[3]["rv"]["b"].get("k") == "const" and isinstance(d[3]["rv"]["b"].get("int"), int) and d[3]["rv"]["b"]["int"] >= 1:
+            base = counter_place(body, d[3]["rv"]["a"])
+            if base and base[0] == "param":
+                return ("derived", l, (d[0], d[1], d[3]["rv"]["op"]))
+        if d and d[2] == "assign" and d[3]["rv"]["k"] == "use" and d[3]["rv"]["op"]["k"] in ("copy", "move") and d[3]["rv"]["op"]["pl"]["p"]:
+            # (tmp.0) of a checked add
+            inner = body.single_def(d[3]["rv"]["op"]["pl"]["l"])
+            if inner and inner[2] == "assign" and inner[3]["rv"]["k"] == "checked_bin":
+                base = counter_place(body, inner[3]["rv"]["a"])
+                if base and base[0] == "param" and inner[3]["rv"]["b"].get("k") == "const":
+                    return ("derived", l, (inner[0], inner[1], inner[3]["rv"]["op"]))
         return None
     if not p and 1 <= l <= body.argc:
         ty = body.local_ty(l)
@@ -111,6 +124,7 @@ def counter_steps(body, place):
 def site_guard(body, call_bb, callee_is_self, call_term):
     """Return a description of the guard protecting the call in block call_bb, or None."""
     succ = body.succ()
+    derived_locals = set()
     for g in find_guards(body):
         if g["bb"] == call_bb or g["bb"] not in body.dom()[call_bb]:
             continue
@@ -123,7 +137,19 @@ def site_guard(body, call_bb, callee_is_self, call_term):
         ok_fail = all(call_bb not in body.reach_from(s) for s in noreach)
         if not ok_fail:
             continue
-        steps = [st for st in counter_steps(body, g["place"]) if body.dominates((st[0], st[1]), (call_bb, -1))]
+        if g["place"][0] == "derived":
+            steps = [g["place"][2]] if body.dominates((g["place"][2][0], g["place"][2][1]), (call_bb, -1)) else []
+        else:
+            steps = [st for st in counter_steps(body, g["place"]) if body.dominates((st[0], st[1]), (call_bb, -1))]
+            if not steps and g["place"][0] == "param":
+                # guard on the parameter, recursion with a shadowing `let depth = depth + 1`
+                for bi_, i_, s_ in body.iter_stmts():
+                    if s_["k"] == "assign" and not s_["pl"]["p"] and s_["pl"]["l"] > body.argc and s_["rv"]["k"] in ("bin", "checked_bin") \
+                            and str(s_["rv"].get("op", "")).startswith("Add") and s_["rv"]["b"].get("k") == "const" \
+                            and isinstance(s_["rv"]["b"].get("int"), int) and s_["rv"]["b"]["int"] >= 1 \
+                            and counter_place(body, s_["rv"]["a"]) == g["place"] and body.dominates((bi_, i_), (call_bb, -1)):
+                        steps.append((bi_, i_, s_["rv"]["op"]))
+                        derived_locals.add(s_["pl"]["l"])
         if not steps:
             continue
         # the count must still be held when the call is made: a step in the opposite direction (the `depth -= 1` that undoes the
@@ -150,12 +176,19 @@ def site_guard(body, call_bb, callee_is_self, call_term):
         for a in carried:
             if a["k"] in ("copy", "move"):
                 r0, _ = body.root_of(a["pl"]["l"])
-                if r0 == l or a["pl"]["l"] == l:
+                if r0 == l or a["pl"]["l"] == l or r0 in derived_locals:
                     passed = True
+                # (tmp.0) of a checked add feeding the shadowing local
+                if not passed and r0 > body.argc:
+                    d0 = body.single_def(r0)
+                    if d0 and d0[2] == "assign" and d0[3]["rv"]["k"] == "use" and d0[3]["rv"]["op"].get("k") in ("copy", "move") \
+                            and d0[3]["rv"]["op"]["pl"]["l"] in derived_locals:
+                        passed = True
         if not passed:
             continue
         name = body.local_name(l) or "_%d" % l
         desc = {"param": "integer parameter `%s`" % name,
+                "derived": "`%s` = an integer parameter + constant" % name,
                 "deref": "`%s%s` through &mut `%s`" % ("(*%s)" % name, "".join("." + f for f in fields), name)}[kind]
         return {"guard_line": g["line"], "counter": desc, "bound": g["const"], "cmp": g["op"], "step": steps[0][2]}
     return None
